@@ -182,6 +182,8 @@ class Labels:
                 if verdict == "ties":
                     return args | {"custom-order"}
                 return args | {"unknown:sort key"}
+            if d in ("builtins.sum", "builtins.len", "builtins.max", "builtins.min", "builtins.any", "builtins.all"):
+                return args - ORDER          # commutative aggregates: the order of the elements does not show in the result
             if d in ("builtins.set", "builtins.frozenset"):
                 return args | {"enum-order"}
             if d in PASS or d.startswith("os.path.") or d.startswith("builtins."):
@@ -283,6 +285,31 @@ def recovery_hook(ctx, init):
                     if isinstance(a, ast.Call) and C.is_ext_call(ctx, a, init, ("os.path.exists", "os.path.isfile", "os.path.isdir")) and a.args \
                             and norm(a.args[0]) == norm(payload):
                         return frozenset([("param", init.qual, "path")])
+        return None
+    return hook
+
+
+def recovery_expr_hook(ctx, init):
+    """The same recovery arm wherever it is written (a helper that returns the recovered path): `X[-1]` evaluated where
+    os.path.exists(X[-1]) is known to be true is the content path the list option swallowed."""
+    def hook(f, e, flow, env, depth):
+        if f is None or not (isinstance(e.value, ast.Name) and norm(e.slice) == "-1"):
+            return None
+        stmt = ctx.prog.enclosing_stmt(e)
+        g = C.cfg_of(f)
+        node = C.stmt_node(ctx, f, stmt)
+        if node is None:
+            return None
+        # a use inside the test itself (os.path.exists(X[-1])) is not a recovered path
+        if node.kind == "test":
+            return None
+        for b, lab in g.control_deps(node):
+            t = C.test_expr(b)
+            if t is None or lab != "true":
+                continue
+            for a in C.atoms_of(t):
+                if isinstance(a, ast.Call) and C.is_ext_call(ctx, a, f, ("os.path.exists", "os.path.isfile", "os.path.isdir")) and a.args and norm(a.args[0]) == norm(e):
+                    return frozenset([("param", init.qual, "path")])
         return None
     return hook
 
@@ -408,6 +435,7 @@ def run(ctx):
     init = ctx.prog.func("torrentfile.torrent:MetaFile.__init__")
     pt = PointsTo(ctx.prog, ctx.res, ctx.cg)
     flow = Flow(ctx.prog, ctx.res, stop_funcs=[init], hook=recovery_hook(ctx, init))
+    flow.expr_hook = recovery_expr_hook(ctx, init)
     lab = Labels(ctx, init)
     # the meta dictionary created by MetaFile.__init__
     roots = set()
